@@ -68,7 +68,7 @@ def run(ctx):
         "not covered: FASTLY_CONTROL / pragma tokens, falco-ignore directives (C12), @plugin annotations, tester metadata comments, remote snippets, the hash director (cannot be selected in the simulator today)",
     ]
     g = DG.DecorGen(rng)
-    n_prog = 5000 if thorough else 240
+    n_prog = 3000 if thorough else 240
     n_var = 50 if thorough else 21
     cases = []      # (label, base source, [(style, variant source)])
     for label, base, vs in corpus_cases():
